@@ -120,6 +120,19 @@ def stepLine (line : String) : String :=
           pure (match lookupField t (looseFields d) with
             | some v => "some " ++ dBytes v
             | none => "none")) args
+      | "tfmt" => runP (do
+          let y ← pNat; let mo ← pNat; let d ← pNat; let h ← pNat; let mi ← pNat; let s ← pNat; let ms ← pNat
+          pure ("ok " ++ dBytes (timeFmt y mo d h mi s ms))) args
+      | "vfb" => runP (do
+          let k ← tok; let d ← pBytes
+          let kind ← (match k with
+            | "str" => some VKind.str | "int" => some .int | "uint" => some .uint | "float" => some .float
+            | "time" => some .time | "bool" => some .bool | "raw" => some .raw | _ => none : Option VKind)
+          pure (match (Val.blank kind).fromBytes d with
+            | none => "err"
+            | some v => match v.toBytes with
+              | none => "some nil"
+              | some b => "some " ++ dBytes b)) args
       | "pool" => poolOp args
       | "alias" =>
         -- s:<obj>:<body> = Send of object <obj> carrying <body>; r:<b>:<e> = ResendRequest b..e (answers separated by |)
